@@ -27,8 +27,10 @@ EVERY path: the failure path stores one nil per binding precisely to keep it) is
 Theorems/C02Loc.lean.
 
 The meaning functions are partial (`Option`): `none` = the fragment's typing assumption is violated (a
-tuple pattern applied to something that is not a tuple of that width, a read of a name that has no
-slot) — the compiler only emits this code for well-typed programs.
+tuple pattern that tests or binds a field the value does not have, a read of a name that has no
+slot) — the compiler only emits this code for well-typed programs. They follow the CODE where the code
+is more liberal than a reading of the pattern would be: a tuple pattern does not check the width (the
+static type did), and stops testing at the first literal that differs.
 -/
 namespace QM.RefSem.C1
 open QM.VM
@@ -182,11 +184,21 @@ def subBound (v : Val) : Sub → List Val
   | .bind _ => [v]
   | _ => []
 
-/-- do all literal sub-patterns accept their fields? (`none`: a field is missing) -/
-def fieldsPass : List Sub → List Val → Option Bool
-  | [], [] => some true
-  | s :: r, v :: vs => (fieldsPass r vs).map (fun b => subPasses v s && b)
-  | _, _ => none
+/-- the fields a `Get` can reach -/
+def fieldsOf : Val → List Val
+  | .tup _ els => els.toList
+  | _ => []
+
+/-- the literal tests, in field order, stopping at the first that fails (`none`: a tested field does
+not exist — `Get` fails) -/
+def fieldsPass : List Sub → Nat → List Val → Option Bool
+  | [], _, _ => some true
+  | .lit z _ :: r, k, vs =>
+    match vs[k]? with
+    | none => none
+    | some v => if v = .int z then fieldsPass r (k + 1) vs else some false
+  | .bind _ :: r, k, vs => fieldsPass r (k + 1) vs
+  | .wild :: r, k, vs => fieldsPass r (k + 1) vs
 
 /-- the values stored for the (sorted) binders -/
 def bindVals : List (String × Nat) → List Val → Option (List Val)
@@ -202,13 +214,10 @@ def evalPat (flow : Val) : Pat1 → Option (Val × List Val)
     if subPasses flow s then some (Val.ok, subBound flow s)
     else some (Val.nil, List.replicate (subBinds s).length Val.nil)
   | .tup subs =>
-    match flow with
-    | .tup _ els =>
-      match fieldsPass subs els.toList with
-      | some true => (bindVals (sortB (binders subs 0)) els.toList).map fun vs => (Val.ok, vs)
-      | some false => some (Val.nil, List.replicate (subsBinds subs).length Val.nil)
-      | none => none
-    | _ => none
+    match fieldsPass subs 0 (fieldsOf flow) with
+    | some true => (bindVals (sortB (binders subs 0)) (fieldsOf flow)).map fun vs => (Val.ok, vs)
+    | some false => some (Val.nil, List.replicate (subsBinds subs).length Val.nil)
+    | none => none
 
 mutual
   def evalT (Γ : List String) (L : List Val) (flow : Val) : T1 → Option (Val × List Val)
